@@ -102,10 +102,32 @@ def check_C13(lines, obs):
     v = validator_expectations(lines, obs)
     if v:
         return v
+    for ln, ob in zip(lines, obs):
+        if ln == "dumpall" and not ob.startswith("ok"):
+            return fail(ln, "every array can be read back: values is a numpy array of the dimensions' shape",
+                        "a dump of the store", ob)
     for ln, ob, before, after in walk(lines, obs):
         op = ln.split(" ")[0]
         if op == "probe_dims":
             continue     # editing an array's own dimension set in place is outside the contract
+        t = ln.split(" ")
+        # set_values / whole-array assignment of an ndarray of any other shape must be rejected
+        nd_tok = None
+        if op == "setvalues" and len(t) == 3:
+            nd_tok = t[2]
+        elif op == "setitem" and len(t) == 4 and t[2] == "E" and t[3].startswith("nd:"):
+            nd_tok = t[3]
+        if nd_tok is not None and t[1] in before:
+            cur = before[t[1]]
+            close = cur.index("]")
+            cur_shape = cur[close + 2:].split(" |")[0].strip()
+            if nd_tok.startswith("nd:"):
+                given = nd_tok.split(":")[1]
+                if given != cur_shape and ob != "err":
+                    return fail(ln, "set_values / whole-array assignment reject an ndarray of any other shape (no broadcasting)",
+                                "err", ob)
+            elif ob != "err":
+                return fail(ln, "set_values rejects anything that is not an ndarray of the array's shape", "err", ob)
         probed = {l.split(" ")[1] for l in lines if l.startswith("probe_dims ")}
         for h, text in after.items():
             if h in probed:
